@@ -9,7 +9,8 @@ ENTRY = dict(
                   "c19_pattern_reset_free", "c19_pattern_pointwise",
                   "c19_no_reset", "c19_pre_pass_pattern", "c19_no_reuseb_sound", "c19_suffix_avoids_sourcesb_sound",
                   "c19_values_unaffected", "c19_repair_values",
-                  "c19_finish_postconditions", "c19_finish_values",
+                  "c19_finish_postconditions", "c19_finish_values", "c19_reference_total", "c19_second_clause",
+                  "c19_registry_bases_class", "c19_env_entry_class", "c19_all_bases_classes", "c19_move_table_agrees_with_c02",
                   "c19_cut_wires_no_reuse",
                   "c19_input_ok_plain", "c19_cut_wires_no_reuse_gen",
                   "c19_separated_no_reuse", "c19_separated_suffix", "c19_separated_no_reset",
@@ -47,6 +48,14 @@ ENTRY = dict(
                    "(modelling assumption M1); that the placeholder bit is masked out of every observable is C11's c11_dummy, cited, not "
                    "re-proved here.",
         assumptions=[
+            "c19_second_clause is the property's second clause on the model for arbitrary subcircuits: hypotheses are only `valid` "
+            "(C14: a proper grouping with in-range map ids) and sub_ok (indices in range, arities of Reset/Measure/placeholders/QPDMeasure); "
+            "the reference circuit's existence and well-formedness are PROVED (c19_reference_total), no longer assumed; what remains outside: "
+            "M1, the masking of the placeholder bit (C11) and the reconstruction formula (C06)",
+            "c19_registry_bases_class / c19_env_entry_class discharge, from C02's Model/Bases.v (20 registered names + KAK path), the part of "
+            "no_reuse's hypothesis that says every placeholder basis is reset-free or Move-like: only `move` contains a Reset; that Model/Bases.v "
+            "is what qpdbasis_from_instruction returns is C02's correspondence, and that an environment entry equals circ_basis of such a "
+            "basis is checked per case by the C19 correspondence (the env literal), not proved; hand-made QPDBasis objects stay a hypothesis",
             "finish-level statements: c19_finish_postconditions (no reset first/last/doubled on any wire of a returned subexperiment, for "
             "every valid request on a subcircuit whose resets and placeholders act inside the circuit - re-use and user resets included) "
             "and c19_finish_values (every classical bit of the returned subexperiment has the Herbrand term it has in the subexperiment "
